@@ -24,6 +24,9 @@ import (
 
 func TestMain(m *testing.M) {
 	gen.Setup()
+	if multiBackendProcess() {
+		registerSecondWalletBackend()
+	}
 	code := m.Run()
 	h.FlushAll()
 	os.Exit(code)
@@ -540,6 +543,12 @@ func TestReplay(t *testing.T) {
 	}
 	rec := h.Begin("C14", "replay")
 	switch part := h.ReplayPart(p); part {
+	case "multi":
+		var c MultiMapCase
+		if err := h.LoadReplay(p, &c); err != nil {
+			t.Fatal(err)
+		}
+		rec.Report(t, c, runMultiMapCase(c))
 	case "values":
 		var c ValCase
 		if err := h.LoadReplay(p, &c); err != nil {
